@@ -70,10 +70,15 @@ def controls(rep, M, hdrs):
         out = []
         for it in items:
             if it[0] == "gate":
-                f = it[1]
-                if f[0] == "gte" and (f[1], f[2]) == target:
-                    f = ("gte", f[1], f[2] + 1, f[3])
-                out.append(("gate", f, bump(it[2]), bump(it[3])))
+                def bf(f):
+                    if f[0] == "gte" and (f[1], f[2]) == target:
+                        return ("gte", f[1], f[2] + 1, f[3])
+                    if f[0] == "not":
+                        return ("not", bf(f[1]))
+                    if f[0] in ("and", "or"):
+                        return (f[0], bf(f[1]), bf(f[2]))
+                    return f
+                out.append(("gate", bf(it[1]), bump(it[2]), bump(it[3])))
             else:
                 out.append(it)
         return out
@@ -120,6 +125,8 @@ def run(F, rep, tier):
     # .. and absent characters are padded up to the number of frames, or every later row of that character shifts
     C04.padding_rule(F, G_, rep)
     C04.data_mut_rule(F, rep)
+    from props import C10
+    C10.same_version_rule(F, rep)
     n_gated = sum(1 for s in model.EVENT_STRUCTS for f in M.spec[s]["fields"] if f.get("since"))
     rep.counts["version_classes"] = len(M.classes)
     rep.counts["spec_fields"] = sum(len(M.spec[s]["fields"]) for s in model.EVENT_STRUCTS)
